@@ -430,8 +430,8 @@ func noteSfx(n string) string {
 func init() {
 	register(&Prop{
 		ID: "C20",
-		Rule: "otp.wasm is built from the working tree (GOOS=js GOARCH=wasm) into a scratch copy of otp-js and loaded under Node through the repository's index.js; a generated case list (counters/timestamps 0..2^53, a fractional part on any numeric argument (answer = integer part's answer or error:), digits '6','8','9','10' + unknown spellings, three hashes + unknown, periods 1..3600, skews 0..10, codes at every window distance -(s+2)..+(s+2), URLs, and malformed calls: every argument position x {undefined,null,NaN,+-Infinity,-1,1e300,boolean,object,array,''}, too few/many arguments, range errors) is executed through globalThis.<name> and through the exported object by name; answers are compared with the native library and the reference model, malformed calls must return 'error:…' and are followed by a known-answer probe; the binding's Go sources are additionally compiled natively through an overlay for a larger differential; " +
-			"distinct_nontrivial counts distinct (function, arguments) calls judged through both access paths",
+		Rule: "otp.wasm is built from the working tree (GOOS=js GOARCH=wasm) into a scratch copy of otp-js and loaded under Node through the repository's index.js; a generated case list (counters/timestamps 0..2^53, a fractional part on any numeric argument (answer = integer part's answer or error:), digits '6','8','9','10' + unknown spellings, three hashes + unknown, periods 1..3600, skews 0..10, codes at every window distance -(s+2)..+(s+2), URLs, and malformed calls: every argument position x {undefined,null,NaN,+-Infinity,-1,1e300,boolean,object,array,'',BigInt,Symbol,function,Date,typed array,boxed string/number}, too few/many arguments, range errors) is executed through globalThis.<name> and through the exported object by name; answers are compared with the native library and the reference model, malformed calls must return 'error:…' and are followed by a known-answer probe; the binding's Go sources are additionally compiled natively through an overlay for a larger differential; " +
+			"the driver reloads the module after a call has killed the Go program, so later cases are judged on their own; the package as committed (index.js + the committed lib/otp.wasm) is driven with a reduced list against the same oracle (paths committed-artefact/...); distinct_nontrivial counts distinct (function, arguments) calls judged through both access paths",
 		Run: func(c *Ctx) {
 			r := c.R
 			procs := c.N(1, 6)
